@@ -14,6 +14,7 @@
 -/
 import GojaModel.C06.Lemmas
 import GojaModel.C06.Utf8
+import GojaModel.C06.Spec
 namespace GojaModel.C06
 
 /-! ## constructors -/
@@ -835,6 +836,62 @@ theorem nf_concatStrings {l : List Str} (hl : ∀ x ∈ l, NF x) : NF (concatStr
 /-- a unit of either operand (a lone surrogate in particular) is a unit of the concatenation, and nothing else is -/
 theorem concat_mem (x y : Str) (c : UInt16) : c ∈ units (concat x y) ↔ c ∈ units x ∨ c ∈ units y := by
   rw [concat_units x y, List.mem_append]
+
+/-! ## lenientUtf16Decoder (string iteration, JSON.stringify quoting, regexp position maps) -/
+
+/-- The decoder with its push-back yields exactly the spec's code-point segmentation, for every unit list, every
+pending pushed-back unit and any sufficient fuel.  (A pushed-back unit is re-examined: `D800 D83D DE00` is the lone
+D800 followed by ONE code point.) -/
+theorem lenientF_eq_codePoints : ∀ (fuel : Nat) (prev : Option UInt16) (input : List UInt16),
+    prev.toList.length + input.length < fuel →
+    Spec.lenientF fuel prev input = Spec.codePoints (prev.toList ++ input)
+  | 0, _, _, h => by omega
+  | fuel + 1, none, [], _ => by simp [Spec.lenientF, Spec.codePoints]
+  | fuel + 1, none, [c], _ => by
+    by_cases hc : Spec.isHi c = true
+    · simp [Spec.lenientF, Spec.codePoints, hc]
+    · cases fuel <;> simp [Spec.lenientF, Spec.codePoints, hc]
+  | fuel + 1, none, c :: d :: rest, h => by
+    simp only [Option.toList, List.nil_append, List.length_nil, List.length_cons] at h
+    by_cases hc : Spec.isHi c = true
+    · by_cases hd : Spec.isLo d = true
+      · have ih := lenientF_eq_codePoints fuel none rest (by simp; omega)
+        simp only [Option.toList, List.nil_append] at ih
+        simp [Spec.lenientF, Spec.codePoints, hc, hd, ih]
+      · have ih := lenientF_eq_codePoints fuel (some d) rest (by simp; omega)
+        simp only [Option.toList, List.singleton_append] at ih
+        simp [Spec.lenientF, Spec.codePoints, hc, hd, ih]
+    · have ih := lenientF_eq_codePoints fuel none (d :: rest) (by simp; omega)
+      simp only [Option.toList, List.nil_append] at ih
+      simp [Spec.lenientF, Spec.codePoints, hc, ih]
+  | fuel + 1, some c, [], _ => by
+    by_cases hc : Spec.isHi c = true
+    · simp [Spec.lenientF, Spec.codePoints, hc]
+    · cases fuel <;> simp [Spec.lenientF, Spec.codePoints, hc]
+  | fuel + 1, some c, d :: rest, h => by
+    simp only [Option.toList, List.singleton_append, List.length_cons, List.length_nil] at h
+    by_cases hc : Spec.isHi c = true
+    · by_cases hd : Spec.isLo d = true
+      · have ih := lenientF_eq_codePoints fuel none rest (by simp; omega)
+        simp only [Option.toList, List.nil_append] at ih
+        simp [Spec.lenientF, Spec.codePoints, hc, hd, ih]
+      · have ih := lenientF_eq_codePoints fuel (some d) rest (by simp; omega)
+        simp only [Option.toList, List.singleton_append] at ih
+        simp [Spec.lenientF, Spec.codePoints, hc, hd, ih]
+    · have ih := lenientF_eq_codePoints fuel none (d :: rest) (by simp; omega)
+      simp only [Option.toList, List.nil_append] at ih
+      simp [Spec.lenientF, Spec.codePoints, hc, ih]
+
+/-- string iteration / JSON.stringify / regexp see the spec's code points of any unit list -/
+theorem lenientDecode_eq_codePoints (s : List UInt16) : Spec.lenientDecode s = Spec.codePoints s := by
+  have := lenientF_eq_codePoints (s.length + 1) none s (by simp)
+  simpa [Spec.lenientDecode] using this
+
+/-- regression lemma for the seeded change C06-m4 (returning the pushed-back unit as it is): on `D800 D83D DE00` the
+spec has two code points (the lone D800 and U+1F600) — the changed decoder produced three. -/
+theorem lenient_pushback_reexamined_witness :
+    Spec.lenientDecode [0xD800, 0xD83D, 0xDE00] = [0xD800, 0x1F600] := by
+  decide
 
 /-! ## non-vacuity (tests on literals, not proofs of the property) -/
 
